@@ -457,10 +457,14 @@ class Worker(threading.Thread):
                 self.res.append(["gotStructured", kj, m] if structured else ["gotStr", kj, m])
                 out = "got"
             except RuntimeError as e:
-                if "No message to receive" not in str(e):
-                    raise
-                self.res.append(["empty", kj])
-                out = "empty"
+                if "No message to receive" in str(e):
+                    self.res.append(["empty", kj])
+                    out = "empty"
+                else:       # e.g. "Received message of type … instead of str": a message was popped and not returned
+                    self.res.append(["recvRaised", kj, "RuntimeError"])
+                    out = "raised"
+                    s.unexpected.append({"thread": self.tid, "op": "recv(block=%s) on %s" % (block, kj),
+                                         "error": "RuntimeError(%s)" % e})
             except ConnectionError as e:        # not raised by the code as it is: a recv that gives up
                 left = [decode(x) for x in hub_in_use()._messages.get(key, ())]
                 self.res.append(["recvRaised", kj, "ConnectionError"])
@@ -1278,6 +1282,158 @@ def _report_resets(summary):
         if len(summary["failures"]) < 8:
             summary["failures"].append({"what": rf["what"], "kf": None, "input": {"leftovers": rf["leftovers"]}})
     del RESET_FAILURES[:]
+
+
+# ------------------------------------------------------------------ value-snapshot semantics (aliasing of messages)
+
+
+def _snap(v):
+    """deep, comparable copy of a header / payload value at send time"""
+    return json.loads(json.dumps(v))
+
+
+def value_snapshot_histories(rng=None, n_random=0):
+    """Model-free: the receiver must get the VALUES a message had when it was sent, exactly once, in order.
+    The sender reuses ONE StructuredMessage object across sends, mutating header / payload (also mutable
+    list / dict payloads, in place) between the sends and after the last one, before the receiver reads; the
+    receiver scribbles over what it received, which must affect neither later receives nor the sender's object.
+    Plain `send` only accepts `str` (immutable), so there is nothing to alias there; a structured message read with
+    plain `recv` and callback delivery are covered too. Returns (number of histories, failures)."""
+    import copy
+    fails = []
+    histories = []
+    # (header, payload) values of the successive sends; the same object is mutated to carry them
+    histories.append({"name": "reuse-payload", "values": [("round", "1"), ("round", "2")], "mode": "structured"})
+    histories.append({"name": "reuse-header-and-payload", "values": [("a", 1), ("b", 2), ("c", 3)], "mode": "structured"})
+    histories.append({"name": "list-payload-mutated-in-place", "values": [("h", [1]), ("h", [1, 2]), ("h", [1, 2, 3])],
+                      "mode": "structured", "inplace": True})
+    histories.append({"name": "dict-payload-mutated-in-place", "values": [("h", {"k": 1}), ("h", {"k": 2}), ("h", {"k": 2, "j": 0})],
+                      "mode": "structured", "inplace": True})
+    histories.append({"name": "structured-read-with-plain-recv", "values": [("x", "1"), ("x", "2")], "mode": "plainrecv"})
+    histories.append({"name": "callback-delivery", "values": [("x", [1]), ("y", [1, 5])], "mode": "callback", "inplace": True})
+    histories.append({"name": "fresh-object-per-send (control)", "values": [("x", "1"), ("x", "2")], "mode": "structured",
+                      "fresh": True})
+    for _ in range(n_random):
+        k = rng.randrange(2, 5)
+        vals = []
+        cur = [rng.randrange(9)]
+        for _i in range(k):
+            cur = cur + [rng.randrange(9)] if rng.random() < 0.6 else [rng.randrange(9)]
+            vals.append((rng.choice(["h", "g", 7]), list(cur)))
+        histories.append({"name": "random", "values": vals, "mode": rng.choice(["structured", "plainrecv", "callback"]),
+                          "inplace": rng.random() < 0.5})
+    for hist in histories:
+        reset_and_check("before a value-snapshot history")
+        vals = hist["values"]
+        expected = [[_snap(h), _snap(p)] for h, p in vals]
+        out = {"received": [], "errors": [], "after_empty": None, "sender_obj": None, "stored": []}
+        a_done, b_done = threading.Event(), threading.Event()
+        keep = []
+
+        class Store(ThreadSocket):
+            def recv_callback(self, msg):
+                out["stored"].append(msg)
+
+        def alice():
+            try:
+                sock = ThreadSocket("n0", "n1", timeout=10)
+                keep.append(sock)
+                msg = None
+                for i, (h, p) in enumerate(vals):
+                    if msg is None or hist.get("fresh"):
+                        msg = StructuredMessage(header=copy.deepcopy(h), payload=copy.deepcopy(p))
+                    else:
+                        msg.header = copy.deepcopy(h)
+                        if hist.get("inplace") and isinstance(msg.payload, list) and isinstance(p, list):
+                            del msg.payload[:]
+                            msg.payload.extend(copy.deepcopy(p))        # same list object, new contents
+                        elif hist.get("inplace") and isinstance(msg.payload, dict) and isinstance(p, dict):
+                            msg.payload.clear()
+                            msg.payload.update(copy.deepcopy(p))
+                        else:
+                            msg.payload = copy.deepcopy(p)
+                    sock.send_structured(msg)
+                # after the last send, before the receiver reads: scribble over the sender's object
+                msg.header = "SCRIBBLED-BY-SENDER"
+                if isinstance(msg.payload, list):
+                    msg.payload.append("SCRIBBLED-BY-SENDER")
+                elif isinstance(msg.payload, dict):
+                    msg.payload["SCRIBBLED-BY-SENDER"] = 1
+                else:
+                    msg.payload = "SCRIBBLED-BY-SENDER"
+                out["sender_obj"] = msg
+                out["sender_expected"] = [_snap(msg.header), _snap(msg.payload)]
+            except Exception as e:  # noqa
+                out["errors"].append("sender: %r" % (e,))
+            finally:
+                a_done.set()
+                b_done.wait(10)
+
+        def bob():
+            try:
+                cls = Store if hist["mode"] == "callback" else ThreadSocket
+                sock = cls("n1", "n0", timeout=10, use_callbacks=hist["mode"] == "callback")
+                keep.append(sock)
+                if not a_done.wait(10):
+                    raise RuntimeError("sender never finished")
+                if hist["mode"] == "callback":
+                    for raw in out["stored"]:
+                        d = json.loads(raw) if isinstance(raw, str) else {"header": raw.header, "payload": raw.payload}
+                        out["received"].append([_snap(d["header"]), _snap(d["payload"])])
+                else:
+                    for _i in vals:
+                        if hist["mode"] == "plainrecv":
+                            raw = sock.recv(timeout=5)
+                            d = json.loads(raw)
+                            out["received"].append([_snap(d["header"]), _snap(d["payload"])])
+                        else:
+                            got = sock.recv_structured(timeout=5)
+                            out["received"].append([_snap(got.header), _snap(got.payload)])
+                            # the receiver scribbles over what it got
+                            got.header = "SCRIBBLED-BY-RECEIVER"
+                            if isinstance(got.payload, list):
+                                got.payload.append("SCRIBBLED-BY-RECEIVER")
+                            elif isinstance(got.payload, dict):
+                                got.payload["SCRIBBLED-BY-RECEIVER"] = 1
+                            else:
+                                got.payload = "SCRIBBLED-BY-RECEIVER"
+                    try:
+                        extra = sock.recv(block=False)
+                        out["after_empty"] = "extra message %r" % (extra,)
+                    except RuntimeError:
+                        out["after_empty"] = "empty"
+            except Exception as e:  # noqa
+                out["errors"].append("receiver: %r" % (e,))
+            finally:
+                b_done.set()
+
+        ts = [threading.Thread(target=alice, daemon=True), threading.Thread(target=bob, daemon=True)]
+        for t in ts:
+            t.start()
+        for t in ts:
+            t.join(30)
+        desc = {"history": hist["name"], "mode": hist["mode"], "one object reused": not hist.get("fresh"),
+                "in-place payload mutation": bool(hist.get("inplace")), "values at send time": expected,
+                "received": out["received"], "after the last receive": out["after_empty"], "errors": out["errors"]}
+        if out["errors"] or any(t.is_alive() for t in ts):
+            fails.append({"what": "value-snapshot history '%s' could not complete: %s" % (hist["name"], out["errors"]),
+                          "input": desc})
+        elif out["received"] != expected:
+            fails.append({"what": "the receiver got %s but the values at send time were %s (one StructuredMessage object "
+                                  "reused / mutated by the sender, history '%s')" % (out["received"], expected, hist["name"]),
+                          "input": desc})
+        elif hist["mode"] != "callback" and out["after_empty"] != "empty":
+            fails.append({"what": "after all messages were received the channel did not report emptiness: %s"
+                                  % out["after_empty"], "input": desc})
+        else:
+            so = out["sender_obj"]
+            if so is not None and [_snap(so.header), _snap(so.payload)] != out["sender_expected"]:
+                fails.append({"what": "the receiver's modification of a received message changed the SENDER's object: %s"
+                                      % [_snap(so.header), _snap(so.payload)], "input": desc})
+        del keep[:]
+        hub_in_use().__init__()
+    reset_and_check("after the value-snapshot histories")
+    return len(histories), fails
 
 
 def two_run_histories():
